@@ -108,33 +108,44 @@ HARNESSES = [
 ]
 
 # ---- preallocation (fallocate.c) ----
-FALLOC_UW = ["%s.%d:12" % (f, i) for f in ("vf_fetch", "vf_find", "vf_lower", "vf_above", "vf_store", "vf_inuse", "ext2fs_new_range",
+FALLOC_UW = ["%s.%d:12" % (f, i) for f in ("vf_fetch", "vf_lower", "vf_above", "vf_inuse", "ext2fs_new_range",
                                            "ext2fs_block_alloc_stats_range", "ext2fs_zero_blocks2", "ext2fs_map_cluster_block",
-                                           "ext2fs_extent_delete", "ref_pre_l", "ref_pre_p", "ref_pre_pcluster", "ref_pre_lcluster",
-                                           "vf_post_l", "vf_post_p", "vf_post_pcluster", "vf_wellformed") for i in range(2)] \
-    + main_loops(10, 12)
+                                           "ext2fs_extent_replace", "ext2fs_extent_insert", "ref_pre_l", "ref_pre_p",
+                                           "ref_pre_pcluster", "ref_pre_lcluster", "vf_post_l", "vf_post_p", "vf_post_pcluster",
+                                           "vf_wellformed") for i in range(2)] + main_loops(10, 12)
+FALLOC_TINY = {"LBITS": 3, "PBITS": 6, "RLBITS": 3, "LENBITS": 2}
 
 def falloc_helper_cfgs():
-    c = []
+    quick, thorough = [], []
     for crb in (2, 0):
-        for left in (1, 0):
-            for right in (1, 0):
-                d = {"MODE": 1, "CRB": crb}
-                if left: d["HAVE_LEFT"] = None
-                if right: d["HAVE_RIGHT"] = None
-                c.append(d)
-    return c
+        for left, right in ((1, 0), (0, 1), (0, 0), (1, 1)):
+            d = dict(FALLOC_TINY, MODE=1, CRB=crb)
+            if left: d["HAVE_LEFT"] = None
+            if right: d["HAVE_RIGHT"] = None
+            if left and right:
+                d["_tier"] = "thorough"
+            quick.append(d)
+            # with further-left / further-right extents (implied cluster allocation against a non-adjacent extent, insert positions)
+            thorough.append(dict(d, HAVE_FAR=None, _tier="thorough"))
+    # the default (larger) window, and extents within 2^LENBITS of the on-disk length limit
+    for crb in (2, 0):
+        thorough.append({"MODE": 1, "CRB": crb, "HAVE_LEFT": None, "HAVE_RIGHT": None, "_tier": "thorough"})
+        thorough.append(dict(FALLOC_TINY, MODE=1, CRB=crb, HAVE_LEFT=None, HAVE_RIGHT=None, WITH_BIG=None, PBITS=17, RLBITS=4,
+                             _tier="thorough"))
+    return quick + thorough
 
 HARNESSES += [
     dict(name="falloc_helper", src="falloc.c",
          funcs=["ext_falloc_helper", "claim_range", "ext2fs_iblk_add_blocks", "ext2fs_blocks_count"],
          extra_src=["lib/ext2fs/i_block.c", "lib/ext2fs/blknum.c"],
          configs=falloc_helper_cfgs(), unwind=6,
-         unwindset=FALLOC_UW + ["ext_falloc_helper.0:5"],
-         backends=["default", "kissat"],
-         bound="one call of ext_falloc_helper from every well-formed file state of up to 4 extents (further-left, left, right, "
-               "further-right; lengths up to the on-disk limits, logical blocks < 2^32, physical < 2^30), range of 1..40000 blocks, "
-               "all flag combinations, i_size 48 bits, cluster ratio 1 and 4; allocator answers symbolic, at most 3 general allocations"),
+         unwindset=FALLOC_UW + ["ext_falloc_helper.0:4"],
+         backends=["kissat"], witness_backends=["default"], cap_quick=200, cap_thorough=1200,
+         bound="one call of ext_falloc_helper from every well-formed file state of left / right extent (each given or NULL; thorough: "
+               "plus non-adjacent further-left / further-right extents), either state each, range of 1..8 blocks, all 12 flag "
+               "combinations, i_size anywhere, cluster ratio 4 and 1; quick: window start / gaps < 8, lengths 1..4, 128 physical "
+               "blocks; thorough: gaps < 64, lengths 1..16, 1024 blocks, and lengths within 4 of the on-disk limit; the allocator "
+               "answers symbolically (any free run / failure), at most 2 general allocations"),
 ]
 MANIFEST = {
     "text": "Bounded-exhaustive kernels of the libext2fs file data path: (1) one real file-handle operation "
